@@ -14,7 +14,7 @@ for prop in $props; do
     [ -f "$patch" ] || continue
     dir=$(mktemp -d /var/tmp/sebuf-w.XXXXXX)
     out=$(mktemp -d /var/tmp/sebuf-o.XXXXXX)
-    cp -r /repo/. "$dir"/ && rm -rf "$dir/.git"
+    cp -r "${VERIF_BASE_REPO:-/repo}"/. "$dir"/ && rm -rf "$dir/.git"
     if ! (cd "$dir" && patch -p1 -s < "$patch"); then
       echo "WITNESS $prop $(basename "$patch"): patch does not apply"; fail=1
     else
